@@ -176,7 +176,7 @@ def casehash(case):
 
 
 def write_replay(pid, case, res):
-    d = os.path.join(ROOT, 'replays', pid, casehash(case))
+    d = os.path.join(os.environ.get('VERIF_REPLAY_DIR', os.path.join(ROOT, 'replays')), pid, casehash(case))
     os.makedirs(d, exist_ok=True)
     with open(os.path.join(d, 'case.json'), 'w') as f:
         json.dump(case, f, indent=1)
@@ -282,6 +282,8 @@ def drive(mod, tier):
                 pool.terminate()
                 pool = multiprocessing.Pool(nproc, initializer=_init_worker)
             subrep.append(dict(name=name, size=n, completed=complete, wall_s=round(time.time() - st, 1)))
+            sys.stderr.write('[%s] subspace %s: %d cases, %d violations so far, %.0fs\n' % (mod.ID, name, n, len(viol), time.time() - t0))
+            sys.stderr.flush()
     finally:
         pool.terminate()
         pool.join()
@@ -324,8 +326,9 @@ def drive(mod, tier):
     )
     ev = dict(property_id=mod.ID, tier=tier, seed=seed, level=mod.LEVEL, coverage=cov,
               assumptions=list(getattr(mod, 'ASSUMPTIONS', [])), wall_s=round(wall, 2), violations=len(confirmed))
-    os.makedirs(os.path.join(ROOT, 'evidence'), exist_ok=True)
-    with open(os.path.join(ROOT, 'evidence', mod.ID + '.json'), 'w') as f:
+    evdir = os.environ.get('VERIF_EVIDENCE_DIR', os.path.join(ROOT, 'evidence'))
+    os.makedirs(evdir, exist_ok=True)
+    with open(os.path.join(evdir, mod.ID + '.json'), 'w') as f:
         json.dump(ev, f, indent=1, default=str)
     print('%s tier=%s evaluations=%d transitions=%d states=%d validated=%d distinct_outcomes=%d exhaustive=%s wall=%.1fs'
           % (mod.ID, tier, tot['evaluations'], tot['transitions'], len(states), tot['validated'], len(outcomes), exhaustive, wall))
